@@ -15,10 +15,29 @@ package locking
 
 //@ func (*Client).SearchLocksVerifiable
 //@   props C16
+//@   requires @inv c.cache != nil && c.client != nil
+//@   ensures result2 == nil && !cached ==> cache_adds(old(c.cache)) == len(result0) + len(result1)
+//@   loop 1 invariant cache_adds(c.cache) == len(ourLocks) + len(theirLocks)
+//@   loop 2 invariant cache_adds(c.cache) == len(ourLocks) + len(theirLocks)
+//@   loop 3 invariant cache_adds(c.cache) == len(ourLocks) + len(theirLocks)
 //@   at call (locking.LockCacher).Add:1 assert lock_mine(arg1__)
 //@   at call (locking.LockCacher).Add:2 assert lock_mine(arg1__)
 
 //@ iface (LockCacher).Add
-//@   modifies fresh
+//@   params recv l
+//@   modifies fresh, ghost cache_adds[recv]
+//@   ensures cache_adds(recv) == old(cache_adds(recv)) + 1
 //@ iface (LockCacher).Clear
+//@   params recv
+//@   modifies fresh, ghost cache_adds[recv]
+//@   ensures cache_adds(recv) == 0
+
+// Writing the "verifiable" cache file does not touch the in-memory lock cache.
+//@ func (*Client).writeLocksToCacheFile
+//@   assumed
+//@   props C16
+//@   modifies fresh
+//@ func (*Client).readLocksFromCacheFile
+//@   assumed
+//@   props C16
 //@   modifies fresh
